@@ -29,6 +29,7 @@ fn ids(class: u64) -> (&'static [&'static str], &'static [&'static str]) {
         5 => (&["example.org", "h:8448", "[::1]", "1.2.3.4:80", "a-b.c"], &["", ":80", "a b", "h:port", "[::1", "h:123456"]),
         6 => (&["!r:example.org", "#a:example.org", "!opaque"], &["r", "", "@a:b", "#a"]),
         9 => (&["1", "11", "org.example.v", "x"], &["", "123456789012345678901234567890123"]),
+        10 => (&["ed25519:1", "ed25519:abc_9", "ed25519:0"], &["ed25519", "ed25519:", ":1", "ed25519:\u{e9}", "ed25519:a b"]),
         _ => (&["x"], &[""]),
     }
 }
